@@ -22,6 +22,8 @@ def gen_case(rng: random.Random) -> dict[str, Any]:
             nid += 1
             regs.append({"id": nid, "pass": rng.random() < 0.5, "async": rng.random() < 0.4, "late": []})
             if rng.random() < 0.2:
+                regs[-1].update({"via": "res", "pass": False})      # add_resource(..., types=[A, B], teardown_callback=)
+            if rng.random() < 0.2:
                 for _ in range(rng.randint(1, 2)):
                     nid += 1
                     regs[-1]["late"].append({"id": nid, "pass": rng.random() < 0.5, "async": False})
@@ -86,7 +88,8 @@ class C15(Prop):
     def exhaustive(self, tier: str):
         """The whole decision table on two fixed applications, both back-ends (both tiers)."""
         apps = [
-            [{"regs": [{"id": 1, "pass": True, "async": False}, {"id": 2, "pass": False, "async": True}], "svc": 1, "tick": 0}],
+            [{"regs": [{"id": 1, "pass": True, "async": False}, {"id": 2, "pass": False, "async": True},
+                       {"id": 5, "pass": False, "async": False, "via": "res"}], "svc": 1, "tick": 0}],
             [{"regs": [{"id": 1, "pass": False, "async": False}], "svc": 0, "tick": 1},
              {"regs": [{"id": 2, "pass": True, "async": True, "late": [{"id": 21, "pass": True, "async": False}]},
                        {"id": 3, "pass": True, "async": False}], "svc": 1, "tick": 0},
